@@ -28,9 +28,10 @@ def run_deductive(rep):
     items = [(ScalarShape(f, w), []) for f in ("selection_rate", "mean_prediction") for w in (True, False)] + [(Rate(f), []) for f in Rate.COMPONENT]
     # MetricFrame sample_params: the weights reach every group slice exactly like the rows (column of the same frame, values copied label-free)
     from ..contracts.fairness_metrics import SPEC, NamedMetric
-    from ..contracts.metricframe import AnnotatedCall, ConstructAMF
+    from ..contracts.metricframe import AnnotatedCall, ConstructAMF, GetAnnotatedFunctions
     items += [(ConstructAMF([("sample_weight", False)]), [("weights_stored_with_the_callers_index", verify.replace_expr("np.asarray(param_value)", "param_value"))]),
-              (AnnotatedCall({"sample_weight": "m_sample_weight"}), [])]
+              (AnnotatedCall({"sample_weight": "m_sample_weight"}), []),
+              (GetAnnotatedFunctions("callable"), []), (GetAnnotatedFunctions("dict"), [("callers_dictionary_emptied", verify.replace_expr("sample_params.get(name, {})", "sample_params.pop(name, {})"))])]
     items += [(NamedMetric(f, "worst_case" if SPEC[f][2] else None), []) for f in SPEC]
     verify.verify_many(rep, items)
     from ..static import provenance
